@@ -246,7 +246,7 @@ def enc_fl(x, model):
     return (b"f" + x.text().encode()) if model else (b"F%08x" % x.bits)
 
 
-def enc_prim(p, model, out):
+def enc_prim(p, model, out, tok=False):
     if p is None:
         out.append(b"Z")
     elif p is True:
@@ -256,7 +256,17 @@ def enc_prim(p, model, out):
     elif isinstance(p, int):
         out.append(b"I%d" % p)
     elif isinstance(p, F):
-        out.append(enc_fl(p, model))
+        if model and not tok:
+            # Primitive::serialize (Number arm): an integral value below 2^31 is written exactly (`as i64`), anything else
+            # as `{}` prints it, with a '.' appended when that text has none
+            fr = p.frac()
+            if fr.denominator == 1 and abs(fr) < 2 ** 31:
+                out.append(b"f" + str(int(fr)).encode())
+            else:
+                t = p.text()
+                out.append(b"f" + (t if "." in t else t + ".").encode())
+        else:
+            out.append(enc_fl(p, model))
     elif isinstance(p, Nm):
         out.append(b"N" + p.s)
     elif isinstance(p, bytes):
@@ -264,12 +274,12 @@ def enc_prim(p, model, out):
     elif isinstance(p, list):
         out.append(b"A%d" % len(p))
         for x in p:
-            enc_prim(x, model, out)
+            enc_prim(x, model, out, tok)
     elif isinstance(p, Dict):
         out.append(b"D%d" % len(p.items))
         for k, v in p.items:
             out.append(b"N" + k)
-            enc_prim(v, model, out)
+            enc_prim(v, model, out, tok)
     else:
         raise TypeError(repr(p))
 
@@ -931,5 +941,5 @@ def tok_atoms(toks):
         elif isinstance(t, Raw):
             out.append(b"x" + t.d)
         else:
-            enc_prim(t, True, out)
+            enc_prim(t, True, out, True)
     return out
